@@ -2,6 +2,7 @@ package inspect
 
 import (
 	"fmt"
+	"strings"
 
 	"github.com/bmeg/grip/gripql"
 	"github.com/bmeg/grip/jsonpath"
@@ -76,19 +77,101 @@ func PipelineAsSteps(stmts []*gripql.GraphStatement) map[string]string {
 	return out
 }
 
+// hasKeys lists the field paths a has-expression reads
+func hasKeys(e *gripql.HasExpression, out []string) []string {
+	if e == nil {
+		return out
+	}
+	if c := e.GetCondition(); c != nil {
+		out = append(out, c.Key)
+	}
+	for _, x := range e.GetAnd().GetExpressions() {
+		out = hasKeys(x, out)
+	}
+	for _, x := range e.GetOr().GetExpressions() {
+		out = hasKeys(x, out)
+	}
+	return hasKeys(e.GetNot(), out)
+}
+
+// statementFields lists the field paths ("field", "$mark.field") whose values a statement reads
+func statementFields(gs *gripql.GraphStatement) []string {
+	switch stmt := gs.GetStatement().(type) {
+	case *gripql.GraphStatement_Has:
+		return hasKeys(stmt.Has, nil)
+	case *gripql.GraphStatement_HasKey:
+		return protoutil.AsStringList(stmt.HasKey)
+	case *gripql.GraphStatement_Unwind:
+		return []string{stmt.Unwind}
+	case *gripql.GraphStatement_Fields:
+		out := []string{}
+		for _, f := range protoutil.AsStringList(stmt.Fields) {
+			out = append(out, strings.TrimPrefix(f, "-"))
+		}
+		return out
+	case *gripql.GraphStatement_Render:
+		out := []string{}
+		var walk func(v interface{})
+		walk = func(v interface{}) {
+			switch x := v.(type) {
+			case string:
+				out = append(out, x)
+			case []interface{}:
+				for _, y := range x {
+					walk(y)
+				}
+			case map[string]interface{}:
+				for _, y := range x {
+					walk(y)
+				}
+			}
+		}
+		walk(stmt.Render.AsInterface())
+		return out
+	case *gripql.GraphStatement_Aggregate:
+		out := []string{}
+		for _, a := range stmt.Aggregate.GetAggregations() {
+			out = append(out, a.GetTerm().GetField(), a.GetHistogram().GetField(), a.GetPercentile().GetField(),
+				a.GetField().GetField(), a.GetType().GetField())
+		}
+		return out
+	case *gripql.GraphStatement_Jump:
+		return hasKeys(stmt.Jump.GetExpression(), nil)
+	}
+	return nil
+}
+
 // PipelineStepOutputs identify the required outputs for each step in the traversal
 func PipelineStepOutputs(stmts []*gripql.GraphStatement) map[string][]string {
 
 	steps := PipelineSteps(stmts)
-	asMap := PipelineAsSteps(stmts)
 	onLast := true
 	out := map[string][]string{}
 	for i := len(stmts) - 1; i >= 0; i-- {
 		gs := stmts[i]
+		//a mark name can be set more than once: statement i sees the latest as() before it
+		asMap := PipelineAsSteps(stmts[:i])
+		//a statement that reads "$mark.field" needs the data of the step the mark was set on
+		for _, f := range statementFields(gs) {
+			if f == "" {
+				continue
+			}
+			if a, ok := asMap[jsonpath.GetNamespace(f)]; ok {
+				out[a] = []string{"*"}
+			}
+		}
 		switch gs.GetStatement().(type) {
 		case *gripql.GraphStatement_Count:
 			onLast = false
 		case *gripql.GraphStatement_Select:
+			//later statements that read the selected element read the data of the marked step
+			if _, ok := out[steps[i]]; ok {
+				for _, s := range gs.GetSelect().Marks {
+					if a, ok := asMap[s]; ok {
+						out[a] = []string{"*"}
+					}
+				}
+			}
 			if onLast {
 				sel := gs.GetSelect().Marks
 				for _, s := range sel {
@@ -134,6 +217,9 @@ func PipelineStepOutputs(stmts []*gripql.GraphStatement) map[string][]string {
 			out[steps[i]] = []string{"*"}
 		case *gripql.GraphStatement_HasKey, *gripql.GraphStatement_Unwind:
 			//these read the properties of the current element
+			out[steps[i]] = []string{"*"}
+		case *gripql.GraphStatement_Render, *gripql.GraphStatement_Fields, *gripql.GraphStatement_Aggregate:
+			//so do these, also when a later count() means the element itself is not returned
 			out[steps[i]] = []string{"*"}
 		}
 	}
